@@ -10,9 +10,8 @@ Definition zlist_eqb (a b : list Z) : bool :=
 
 Definition impl_out := option (list Z * list (Z * oq)).
 
-Definition check_one (leaf : option fc) (s : series) (ups : list (Z * list oq)) (refit : bool)
-           (h : horizon) (o : impl_out) : bool :=
-  match model_run leaf s ups refit h, o with
+Definition check_res (m : list Z * list Z * option (res (list oq))) (o : impl_out) : bool :=
+  match m, o with
   | (trace, idx, mv), Some (cuts, pairs) =>
       zlist_eqb trace cuts && zlist_eqb idx (map fst pairs) &&
       match mv with
@@ -39,12 +38,11 @@ Inductive case :=
 Definition check (c : case) : bool :=
   match c with
   | CRun leaf s ups refit hf hp o k o2 =>
-      match used_fh hf hp with
-      | Ok h =>
-          check_one leaf s ups refit h o &&
-          check_one leaf (shift_series k s) (map (shift_batch k) ups) refit (shift_h k h) o2 &&
-          same_values o o2
-      | Err => false
+      match program_run leaf s ups refit hf hp,
+            program_run leaf (shift_series k s) (map (shift_batch k) ups) refit
+                        (option_map (shift_h k) hf) (option_map (shift_h k) hp) with
+      | Ok m, Ok m2 => check_res m o && check_res m2 o2 && same_values o o2
+      | _, _ => false
       end
   end.
 
